@@ -346,6 +346,23 @@ def shard(ctx):
                            "frag": True, "container": cont, "scripting": bool(pi % 2)})
             ctx.count("container_probe_cases")
             ctx.add("containers", cont)
+    # end of input in every tokenizer state: every proper and improper prefix of C16's catalogue of construct spellings, as a
+    # document and as a fragment whose context element selects each tokenizer start state (a state that does not leave
+    # itself at EOF makes the tokenizer emit for ever: the step budget sees it)
+    from . import c16 as _c16
+    EOF_CONTEXTS = ("div", "title", "textarea", "style", "script", "plaintext", "xmp", "noscript", "svg", "math", "table", "select")
+    ke = 0
+    for sp in _c16.EOF_SPELLINGS:
+        for cut in range(1, len(sp) + 1):
+            ke += 1
+            if not ctx.mine(ke):
+                continue
+            pre = sp[:cut]
+            run_case(ctx, {"input": pre, "src": ("str", "shortstr")[ke % 2], "builder": ("etree-full", "dom")[ke % 2], "ns": True, "frag": False,
+                           "container": None, "scripting": bool(ke % 3 == 0)})
+            run_case(ctx, {"input": pre, "src": "str", "builder": ("dom", "etree")[ke % 2], "ns": True, "frag": True,
+                           "container": EOF_CONTEXTS[ke % len(EOF_CONTEXTS)], "scripting": bool(ke % 2)})
+            ctx.count("eof_prefix_cases")
     # the insertion-mode x token walk of C01's catalogue (every context prefix x every probe token), here for totality:
     # builders alternate, every fourth case is also run as a fragment in a rotating context
     from . import c01 as _c01
